@@ -951,13 +951,50 @@ def run_faults(payload: Tuple[Any, ...]) -> Dict[str, Any]:
 # driver
 # ---------------------------------------------------------------------------
 def worker(payload: Tuple[Any, ...]) -> Dict[str, Any]:
-    return {"a": expand_states, "b": run_programs, "c": run_faults}[payload[0]](payload)
+    return {"a": expand_states, "b": run_programs, "c": run_faults, "big": run_big_listing}[payload[0]](payload)
 
 
 def _chunks(xs: List[Any], n: int) -> List[List[Any]]:
     n = max(1, min(n, len(xs)))
     size = (len(xs) + n - 1) // n
     return [xs[i:i + size] for i in range(0, len(xs), size)]
+
+
+def run_big_listing(payload: Tuple[Any, ...]) -> Dict[str, Any]:
+    """(a, sizes) listings larger than one page of the object store (1000 keys): every count around the page size x
+    every configuration - list_files must return exactly the stored names below the directory, as the local backend
+    does for the same files, and never a name outside the table prefix."""
+    _tag, tier, seed, cfg = payload
+    from dsmc.fakes3 import Obj
+
+    rep = Report(PROP, tier, seed, LEVEL)
+    prefix = dict(CONFIGS)[cfg]
+    counts = (999, 1000, 1001, 2001) if tier == "quick" else (999, 1000, 1001, 1999, 2000, 2001, 3001)
+    with Ctx() as ctx:
+        s3 = ctx.worlds[cfg].s3
+        for n in counts:
+            names = ["d/f%05d" % i for i in range(n)]
+            objs = {s3key(prefix, k): Obj(b"x", T0) for k in names + ["a", "e/zz", "d2/a"]}
+            objs.update({k: Obj(v, T0) for k, v in foreign_of(cfg).items()})
+            # neighbours that sort after the table's keys (another table, a string-prefix sibling)
+            if prefix:  # without a prefix the whole bucket is the table
+                objs.update({prefix + "_archive/d/f00001": Obj(b"F1", T0), prefix + "x": Obj(b"F2", T0)})
+            s3.load_state(objs)
+            s3.page_size = 1000
+            for arg, want in (("d", sorted(names)), ("d/", sorted(names)), ("", sorted(names + ["a", "e/zz", "d2/a"]))):
+                rep.add("evaluations")
+                rep.add("big_listings")
+                rep.nontrivial(("big-listing", cfg, n, arg))
+                try:
+                    got = sorted(ctx.S[cfg].list_files(arg))
+                except Exception as e:  # noqa
+                    got = ["<raised %s>" % type(e).__name__]
+                if got != want:
+                    rep.violation({"part": "a", "op": "list_files", "arg_class": "more_than_one_page", "pair": "s3-vs-spec",
+                                   "problem": "listing_wrong"},
+                                  {"config": cfg, "objects_below_directory": len(want), "argument": arg, "returned": len(got),
+                                   "missing": sorted(set(want) - set(got))[:3], "unexpected": sorted(set(got) - set(want))[:3]})
+    return rep.part()
 
 
 def _bc_payloads(tier: str, seed: int) -> List[Tuple[Any, ...]]:
@@ -976,6 +1013,7 @@ def _bc_payloads(tier: str, seed: int) -> List[Tuple[Any, ...]]:
                 out.append(("b", tier, seed, n, mode, 2, True, ch))
     for cfg, _p in CONFIGS:
         out.append(("c", tier, seed, cfg))
+        out.append(("big", tier, seed, cfg))
     return out
 
 
